@@ -133,6 +133,19 @@ def refFlatten : FlattenSrc :=
   { nonIterable := .single, unpackTest := .plainTypeOrOuter, unpackBody := .extendRecursive,
     wholeSteps := [.firstId, .sortIfHas, .returnPair] }
 
+/-- the `sort_tests` method of a suite class as found in the source: `self._tests = list(sorted_tests(self, True))` - the children
+become the items of `sorted_tests` of the suite itself, its own (outer) level unpacked and nothing else: plain suites below it
+dissolved, every other suite below it kept whole (and sorted in turn) -/
+inductive SortSelf | itemsOfSortedOuter | unknown
+deriving DecidableEq, Repr
+
+/-- the children after `sort_tests` (`none`: not interpreted) -/
+def sortSelfI (s : FlattenSrc) : SortSelf → List T → Option (List T)
+  | .itemsOfSortedOuter, cs => some ((sortItems (flattenIL s cs)).map (·.2))
+  | .unknown, _ => none
+
+def refSortSelf : SortSelf := .itemsOfSortedOuter
+
 /-! ### `sorted_tests` -/
 inductive DupOver | iterateTests | unknown
 deriving DecidableEq, Repr
